@@ -213,6 +213,25 @@ theorem searchFrom_bound (d : Dialect) (r : Re) (s : List Nat) : ∀ n p st y, s
     · simp at h; omega
     · have := ih _ _ _ h; omega
 
+theorem matchAt_end (d : Dialect) (r : Re) (s : List Nat) (p : Nat) (y : MS) (hp : p ≤ s.length)
+    (h : matchAt d r s p = some y) : y.pos ≤ s.length := by
+  unfold matchAt at h
+  exact m_bound d s r 0 _ y (List.mem_of_mem_head? h) hp
+
+theorem searchFrom_end (d : Dialect) (r : Re) (s : List Nat) : ∀ n p st y, searchFrom d r s n p = some (st, y) →
+    p + n ≤ s.length + 1 → y.pos ≤ s.length := by
+  intro n; induction n with
+  | zero => intro p st y h; simp [searchFrom] at h
+  | succ n ih =>
+    intro p st y h hp
+    unfold searchFrom at h
+    split at h
+    · rename_i y' hy'
+      simp at h
+      rw [← h.2]
+      exact matchAt_end d r s p y' (by omega) hy'
+    · exact ih _ _ _ h (by omega)
+
 theorem searchFrom_dialect (i mm : Bool) (s : List Nat) (r : Re) (hs : r.simpleLoops = true) (ha : agree i mm s r) :
     ∀ n p, searchFrom (dE i mm) r s n p = searchFrom (dG i mm) r s n p := by
   intro n; induction n with
@@ -263,7 +282,9 @@ theorem link_matcher (i mm : Bool) (r : Re) (t : List Nat) (hasc : ascii t) (hsm
     | some q =>
       rw [hq] at h; simp at h
       have hb := searchFrom_bound _ _ _ _ _ q.1 q.2 hq
-      refine ⟨q.1, q.2.pos, q.2.caps, ?_, ?_⟩
+      have he := searchFrom_end _ _ _ _ _ q.1 q.2 hq (by simp)
+      refine ⟨q.1, q.2.pos, q.2.caps, ?_, ?_, ?_⟩
       · rw [← h]; rfl
       · simp [List.length_drop] at hb; omega
+      · simp [List.length_drop] at hb he; omega
 end OttoVerif.C10.Lem
